@@ -255,7 +255,8 @@ def check_graph(rec, g, dts, fn_name, values_rnd, shipped=False):
                 node_mismatch = True
                 if all(agree.get(id(o), True) for o in e.operands if hasattr(o, "kind")):
                     ots = [str(o.get_type()) for o in e.operands if hasattr(o, "get_type")]
-                    rec.violation(f"static-vs-runtime:{e.kind}", dict(kind=e.kind, operand_types=ots, static=str(st), runtime=str(rdt), node=describe(e), function=fn_name, dtypes=dts))
+                    rec.violation(f"static-vs-runtime:{e.kind}", dict(kind=e.kind, operand_types=ots, static=str(st), runtime=str(rdt), node=describe(e), function=fn_name, dtypes=dts,
+                                                                      unsized_operands_from_likeless_constants=unsized_from_likeless(e)))
             if e.kind not in ("symbol", "constant"):
                 ots = tuple(str(o.get_type()) for o in e.operands if hasattr(o, "get_type"))
                 if len(set(ots)) > 1 or (ots and str(st) != ots[0]):
@@ -286,10 +287,31 @@ def check_graph(rec, g, dts, fn_name, values_rnd, shipped=False):
         for k, (e, rdt) in list(rt.items())[:40]:
             try:
                 ic = e.is_complex
+                if e.kind in ("maximum", "minimum") and any(hasattr(o, "get_type") and o.get_type().is_complex for o in e.operands):
+                    rec.count("is_complex:ill-typed-ordering-of-complex")  # an ordering of complex values: no dtype claim can be made about it
+                    continue
                 if bool(ic) != e.get_type().is_complex:
                     rec.violation("is_complex-disagrees-with-get_type", dict(kind=e.kind, node=describe(e)))
             except NotImplementedError:
                 rec.count("is_complex:refused:" + e.kind)
+
+
+def unsized_from_likeless(e):
+    """True when e has operands of an unsized type (float / integer / complex without a width) and every leaf of those operands is a constant attached to one
+    of the context's implicit symbols (_float_value, _integer_value, ...), i.e. a constant that was created without a like-operand"""
+    found = False
+    for o in e.operands:
+        if not hasattr(o, "get_type"):
+            continue
+        t = o.get_type()
+        if t.kind in ("float", "integer", "complex") and t.bits is None:
+            found = True
+            for n in graph.walk(o):
+                if n.kind == "symbol" and not str(n.operands[0]).endswith("_value"):
+                    return False
+                if n.kind == "constant" and hasattr(n.operands[1], "kind") and n.operands[1].kind == "symbol" and not str(n.operands[1].operands[0]).endswith("_value"):
+                    return False
+    return found
 
 
 def task_generated(params, rec):
